@@ -75,4 +75,15 @@ BENIGN = [
         (LIB, "            Break => SizeEstimate {\n                size: 1,\n                min_width: 1,\n                prefix_size: 0,\n            },",
          "            Break => {\n                const ONE_COLUMN: usize = 1;\n                SizeEstimate { size: ONE_COLUMN, min_width: ONE_COLUMN, prefix_size: 0 }\n            }"),
     ]),
+    # ---- forms the round-7 rules must accept
+    dict(name="benign:nth-child-coefficient-helper", props=["C20", "C17", "C01"], edits=[
+        (PARSER, "fn parse_nth_child_args(text: &str) -> IResult<&str, SelectorComponent> {",
+         "fn signed(sign: Sign, digits: &str) -> Result<i32, ParseIntError> {\n    Ok(<i32 as FromStr>::from_str(digits)? * sign.val())\n}\n\nfn parse_nth_child_args(text: &str) -> IResult<&str, SelectorComponent> {"),
+        (PARSER, "                let b = <i32 as FromStr>::from_str(b_val)? * b_sign.val();\n                Ok((0, b))",
+         "                let b = signed(b_sign, b_val)?;\n                Ok((0, b))"),
+    ]),
+    dict(name="benign:text-node-contents-cloned", props=["C10", "C03", "C01"], edits=[
+        (LIB, "            Finished(RenderNode::new(Text((&*tstr.borrow()).into())))",
+         "            let text: String = tstr.borrow().to_string();\n            Finished(RenderNode::new(Text(text)))"),
+    ]),
 ]
